@@ -665,8 +665,9 @@ class Fn:
         return out
 
     def ordered(self, names, env):
-        order = list(env.keys())
-        return sorted(names, key=lambda x: order.index(x))
+        # by name, not by declaration order: reordering independent `let`s must not change the shape of
+        # the loop-carried state
+        return sorted(names)
 
     # ---- types
     def param_type(self, text, generics):
